@@ -243,6 +243,10 @@ func (e *Exec) callFunc(fn *ssa.Function, args []Value, env []Value) Value {
 		e.stubs[name] = true
 		return st(e, fn, args)
 	}
+	if rd := e.redirect(fn); rd != nil {
+		e.stubs[name+" -> "+rd.Name()] = true
+		return e.callSSA(rd, args, nil)
+	}
 	if fn.Blocks == nil {
 		if fn.Pkg != nil {
 			buildPkg(fn.Pkg)
@@ -256,6 +260,44 @@ func (e *Exec) callFunc(fn *ssa.Function, args []Value, env []Value) Value {
 		return pre(e, fn, args)
 	}
 	return e.callSSA(fn, args, env)
+}
+
+// redirect: a method (*T).M of the harness's package is replaced by the harness function
+// vfStub_T_M(recv, args...) when the harness defines one (environment stub written in Go, e.g. a
+// network request answered in process).  Such harnesses have no native replay.  The table is
+// built once (buildRedirects) and read-only afterwards.
+func (e *Exec) redirect(fn *ssa.Function) *ssa.Function {
+	if len(e.x.redirects) == 0 {
+		return nil
+	}
+	return e.x.redirects[fn]
+}
+
+func buildRedirects(prog *ssa.Program, hpkg *ssa.Package) map[*ssa.Function]*ssa.Function {
+	out := map[*ssa.Function]*ssa.Function{}
+	for name, mem := range hpkg.Members {
+		f, ok := mem.(*ssa.Function)
+		if !ok || !strings.HasPrefix(name, "vfStub_") {
+			continue
+		}
+		parts := strings.SplitN(strings.TrimPrefix(name, "vfStub_"), "_", 2)
+		if len(parts) != 2 {
+			continue
+		}
+		tn, ok := hpkg.Pkg.Scope().Lookup(parts[0]).(*types.TypeName)
+		if !ok {
+			continue
+		}
+		ms := prog.MethodSets.MethodSet(types.NewPointer(tn.Type()))
+		for i := 0; i < ms.Len(); i++ {
+			if ms.At(i).Obj().Name() == parts[1] {
+				if m := prog.MethodValue(ms.At(i)); m != nil {
+					out[m] = f
+				}
+			}
+		}
+	}
+	return out
 }
 
 func (e *Exec) callSSA(fn *ssa.Function, args []Value, env []Value) Value {
@@ -524,7 +566,12 @@ func (fr *frame) visit(instr ssa.Instruction) bool {
 		fr.defers = append(fr.defers, deferred{fn, args, instr})
 	case *ssa.Go:
 		fn, args := fr.prepareCall(&instr.Call, instr)
-		e.spawned = append(e.spawned, spawn{fn, args})
+		if e.extra["go_inline"] != nil {
+			// vfGoInline: the goroutine body runs to completion at the go statement (one schedule)
+			e.callValue(fr, fn, args)
+		} else {
+			e.spawned = append(e.spawned, spawn{fn, args})
+		}
 	case *ssa.MakeChan:
 		n := e.concretize(fr.get(instr.Size).(*Term), 4, "chan size")
 		fr.env[instr] = &Chan{cap: int(n)}
